@@ -68,7 +68,7 @@ fn cert_for(deg: f32) -> String {
         format!("(IZR ({}) / IZR {})", parts[0], parts[1])
     };
     format!(
-        "Goal True. cert03 @K ((Rabs (cos ({d} * PI / 180) - {c}) <= 1 / 10000000)%R /\\ (Rabs (sin ({d} * PI / 180) - {s}) <= 1 / 10000000)%R). exact I. Qed.",
+        "Goal True. cert03 @K ((Rabs (cos ({d} * PI / 180) - {c}) <= 1 / 10000000)%R /\\ (Rabs (sin ({d} * PI / 180) - {s}) <= 1 / 10000000)%R). exact I. Qed.\n",
         d = rat(deg as f64),
         c = rat(r.cos()),
         s = rat(r.sin())
@@ -296,8 +296,16 @@ pub fn run(a: &Args) -> Batch {
                     cases.push(Case { term: format!("Numbers (1 # 1000) [{}] [{}]", coq::q(shoelace(&s.polygon.as_vec())), coq::q(area_of(&mw.id))), post: String::new(), json: js("area of a floor / ceiling"), nontrivial: true });
                 }
                 (_, true) => {
-                    // defined by its own polygon: the area must be the polygon's
+                    // defined by its own polygon: every corner, and the area must be the polygon's
                     if let Some(p) = &w.polygon {
+                        let poly: Vec<String> = p.as_vec().iter().map(|q| format!("({}, {})", coq::q(q.x), coq::q(q.y))).collect();
+                        bump("walls with their own polygon");
+                        cases.push(Case {
+                            term: format!("PolyWall {} {} {} {} {} {} {}", dev_t, space_term(s), cs_term(w.angle_with_space_north as f64).0, cs_term(w.tilt as f64).0, off, lst(&poly), lst(&impl_pts)),
+                            post: format!("{}{}{}", certs, cert_for(w.angle_with_space_north), cert_for(w.tilt)),
+                            json: js("wall / roof with its own polygon"),
+                            nontrivial: true,
+                        });
                         bump("areas");
                         cases.push(Case { term: format!("Numbers (1 # 1000) [{}] [{}]", coq::q(shoelace(&p.as_vec())), coq::q(area_of(&mw.id))), post: String::new(), json: js("area of a wall with its own polygon"), nontrivial: true });
                     }
@@ -408,7 +416,7 @@ pub fn run(a: &Args) -> Batch {
         agree: "agree_C03".into(),
         cases,
         impl_findings: vec![],
-        rule: "projects = the shipped .ctehexml projects + variants with the building deviation set to an exact-trigonometry angle (multiples of 90, 3-4-5, 5-12-13, 7-24-25 triangles) or a random tenth of a degree, spaces offset within the building, spaces turned within the building, rectangular shades re-tilted (0, 90, 180 and 3-4-5 angles) and re-oriented; per converted project: every wall on an edge of its space outline (4 corners through WallGeom::to_global_coords_matrix + outward normal), every floor / ceiling taken from the outline, every wall / slab area, every window (offset, size, setback), every rectangular shade (4 corners) and every shade given by vertices; per shipped project the same project with its deviation increased by an exact angle: positions, azimuths, areas, U-values, K, n50, volumes. Angles that are not exact carry an interval certificate that the (cos, sin) pair is right to 1e-7. non-trivial = the building is turned or the space offset".into(),
+        rule: "projects = the shipped .ctehexml projects + variants with the building deviation set to an exact-trigonometry angle (multiples of 90, 3-4-5, 5-12-13, 7-24-25 triangles) or a random tenth of a degree, spaces offset within the building, spaces turned within the building, rectangular shades re-tilted (0, 90, 180 and 3-4-5 angles) and re-oriented; per converted project: every wall on an edge of its space outline (4 corners through WallGeom::to_global_coords_matrix + outward normal), every floor / ceiling taken from the outline, every wall / roof given by its own polygon (all corners), every wall / slab area, every window (offset, size, setback), every rectangular shade (4 corners) and every shade given by vertices; per shipped project the same project with its deviation increased by an exact angle: positions, azimuths, areas, U-values, K, n50, volumes. Angles that are not exact carry an interval certificate that the (cos, sin) pair is right to 1e-7. non-trivial = the building is turned or the space offset".into(),
         stats: json!({"projects": projects.len(), "variants": nvar, "not_converted": not_converted, "cases_by_kind": st}),
     }
 }
